@@ -49,13 +49,19 @@ def optimize_incrementals(sequence: Reversible[str]):
     # identifying terminal points for incrementals; aka, -x x, 'x'
     # is the terminal point- no point in having -x.
     finalized = set()
-    for item in reversed(sequence):
+    remaining = reversed(sequence)
+    for item in remaining:
         if item[0] == "-":
             i = item[1:]
             if not i:
                 raise ValueError("encountered an incomplete negation (just -, no flag)")
             if i == "*":
-                # seen enough.
+                # seen enough; nothing left of here can survive, but an
+                # incomplete negation there is still an error.
+                if "-" in remaining:
+                    raise ValueError(
+                        "encountered an incomplete negation (just -, no flag)"
+                    )
                 yield item
                 return
             if i not in finalized:
